@@ -33,8 +33,9 @@ func Expand(segs []Seg) []byte {
 // (optionally) report error E together with that read. E is "", "eof",
 // "ueof" or "custom". A step with N==0 and E=="" is a legal (0, nil) read.
 type Step struct {
-	N int    `json:"n"`
-	E string `json:"e,omitempty"`
+	N    int    `json:"n"`
+	E    string `json:"e,omitempty"`
+	Once bool   `json:"once,omitempty"` // the error is reported by this read only: the source recovers
 }
 
 // Src describes a scripted randomness source. After the steps are used up
@@ -135,6 +136,7 @@ type ReadEv struct {
 
 // Res is the event record of one call.
 type Res struct {
+	Env   string   `json:"env,omitempty"` // the child's VERIF_ENVTAG: runtime settings it was started with, when not the default
 	I     int      `json:"i"`
 	G     int      `json:"g,omitempty"`
 	Out   string   `json:"o,omitempty"` // hex of returned string / bytes
